@@ -29,14 +29,16 @@ open Arc.Generated.C05
 /-- The shape of the recovery callbacks / WAL row builders the model and the proofs rely on: the row callback
 looks first at exactly the two keys `columnarToWALRecords` writes (and writes LAST, so they win over same-named
 columns), both are among the removed keys, every removed key is one the live path does not store either ('_'
-prefix), `parseColumnarEntry` accepts integer measurements, the
+prefix), `parseColumnarEntry` accepts integer measurements, the entry queued by AppendRaw* owns a copy of the
+payload (so `walEntry req` — the bytes at acknowledgement time — is what reaches the file even when the request
+buffer is re-used before the asynchronous writer drains it), the
 columnar callback and the row callback use the same default database, the threshold table is the 1e10 / 1e13 /
 1e16 ladder, and `os.Remove(walFile)` follows the callbacks (guarded by allEntriesSucceeded) with no flush
 in between. -/
 theorem C05_facts_tied :
     measKeys.head? = some walMeasKey ∧ dbKeys.head? = some walDbKey ∧
     removedKeys.contains walDbKey = true ∧ removedKeys.contains walMeasKey = true ∧
-    colDbDefault = dbDefault ∧ walKeysLast = true ∧ replayAcceptsIntMeas = true ∧
+    colDbDefault = dbDefault ∧ walKeysLast = true ∧ replayAcceptsIntMeas = true ∧ queuedEntryOwnsCopy = true ∧
     removedKeys.all (fun k => !visible k && k != kTime) = true ∧
     thresholds = [(10000000000, 1000000), (10000000000000, 1000), (10000000000000000, 1)] ∧ elseMult = -1000 ∧
     removeAfterCallbacks = true ∧ removeGuardedByAllSucceeded = true ∧ flushBeforeRemove = false := by
